@@ -7865,8 +7865,11 @@ class SFTPServer:
 
             # Make sure the symlink doesn't point outside the chroot. The
             # new target is relative to where the link really ends up,
-            # which differs from newdir if that goes through a symlink
-            if os.path.realpath(abspath1) != os.path.realpath(abspath2):
+            # which differs from newdir if that goes through a symlink.
+            # In a chroot, always store the normalized target, as what
+            # a 'name/..' pair in it means can change after this check
+            if self._chroot or \
+                    os.path.realpath(abspath1) != os.path.realpath(abspath2):
                 oldpath = os.path.relpath(
                     abspath1, start=os.path.realpath(mapped_newdir))
 
